@@ -1,5 +1,6 @@
 import BeyondVerif.Model.DateCfg
 import BeyondVerif.Model.EopFile
+import BeyondVerif.Model.DateDbl
 import BeyondVerif.Generated.TdbF
 import BeyondVerif.Drv.Util
 /-! Line-protocol handler of C03 (dates). Times travel as decimal integers (ticks of 1e-7 s or microseconds). -/
@@ -44,6 +45,11 @@ def showDate (x : Date) : String :=
 def showRes : Except Err Date → String
   | .ok x => showDate x
   | .error e => "err " ++ errStr e
+
+def showDbl : DblRes → String
+  | .ok e d0 dU => s!"ok {e.taiUtc} {e.ut1Utc} {d0} " ++ (match dU with | some v => toString v | none => "-")
+  | .raised => "raised"
+  | .outOfModel => "out-of-model"
 
 def mkOf (env : Env) (scale : String) (us : String) : Option (Except Err Date) := do
   let sc ← scaleOf? scale
@@ -161,6 +167,22 @@ def handle : List String → Option String
       | some l =>
         return s!"ok {r.len} I " ++ joinWith "," (l.map toString) ++ " C " ++ joinWith "" (probes.map (fun x => b (r.contains x)))
           ++ " Y " ++ joinWith "" (l.map (fun x => b (r.contains x)))
+  -- the record `Date(d, s, scale=…)` picks, in exact binary64 arithmetic: `s` is the double `snum / sden`
+  | ["d3dbl", pol, scale, d, snum, sden] => some <| Id.run do
+    let some p := policyOf? pol | return "bad-op"
+    let some sc := scaleOf? scale | return "err unknown-scale"
+    let some d := iOfStr? d | return "bad-op"
+    let some sn := iOfStr? snum | return "bad-op"
+    let some sd := sden.toNat? | return "bad-op"
+    if sd = 0 then return "bad-op"
+    return showDbl (eopForF cfg (envOf p) sc d ((sn : Rat) / (sd : Rat)))
+  -- … and of `Date(datetime, scale=…)`: `_convert_dt` gives `d`, `delta.seconds + delta.microseconds * 1e-6`
+  | ["d3dbldt", pol, scale, us] => some <| Id.run do
+    let some p := policyOf? pol | return "bad-op"
+    let some sc := scaleOf? scale | return "err unknown-scale"
+    let some us := iOfStr? us | return "bad-op"
+    let tod := (us % DUS).toNat
+    return showDbl (eopForF cfg (envOf p) sc (us / DUS) (sOfDt (tod / 1000000) (tod % 1000000)))
   | _ => none
 
 end BeyondVerif.Drv.C03
